@@ -307,6 +307,8 @@ func main() {
 		runHistories(cases, ow)
 	case "conc":
 		runConcurrent(cases, ow)
+	case "screen":
+		runScreen(cases, ow)
 	default:
 		die(2, "unknown mode %s", *mode)
 	}
